@@ -70,8 +70,15 @@ pub fn replicate_into(scene: &mut DynamicScene, world: &World) {
             entities.entry(entity.id()).or_default();
         }
 
+        let mut exported_ids = Vec::new();
         for rule in rules.iter().filter(|rule| rule.matches(archetype)) {
             for component in &rule.components {
+                // Overlapping rules select a component only once, like for replication.
+                if exported_ids.contains(&component.id) {
+                    continue;
+                }
+                exported_ids.push(component.id);
+
                 // SAFETY: replication rules can be registered only with valid component IDs.
                 let replicated_component =
                     unsafe { world.components().get_info_unchecked(component.id) };
